@@ -337,4 +337,51 @@ def oldSeqGetTranslation (seq : List Char) (s : List Char)
            else trimStopCodon (oldGetItem seq) s (!incompleteOk)
   oldSeqCodons seq includeStop s1
 
+/-! ## collection level (`core/alignment.py` `_SequenceCollectionBase`, `AlignmentI`; `core/new_alignment.py`
+`SequenceCollection`), rows = gap-free sequences -/
+
+/-- `has_terminal_stop` of a collection: `for seq in seqs: if seq.has_terminal_stop(gc, strict): return True`;
+the first row that answers True ends the loop, a strict length error of an earlier row propagates -/
+def collHasTerminalStop (getItem : List Char → Char) : List (List Char) → Bool → Except Err Bool
+  | [], _ => .ok false
+  | r :: rs, strict =>
+    match hasTerminalStop getItem r strict with
+    | .error e => .error e
+    | .ok true => .ok true
+    | .ok false => collHasTerminalStop getItem rs strict
+
+/-- `SequenceCollection.trim_stop_codons` (old `_SequenceCollectionBase`, new): unchanged when no row has a terminal
+stop, otherwise every row is trimmed individually -/
+def collTrimStopCodons (getItem : List Char → Char) (rows : List (List Char)) (strict : Bool) :
+    Except Err (List (List Char)) :=
+  match collHasTerminalStop getItem rows strict with
+  | .error e => .error e
+  | .ok false => .ok rows
+  | .ok true => rows.mapM fun r => trimStopCodon getItem r strict
+
+/-- one row of `AlignmentI.trim_stop_codons`: the regex `(stop1|stop2|…)[gaps]*$` on a gap-free row matches exactly
+when its last three characters are a stop codon; the match is replaced by gaps (the row keeps its length) -/
+def alnTrimRow (getItem : List Char → Char) (r : List Char) : List Char :=
+  if 3 ≤ r.length ∧ getItem (lastN 3 r) = '*' then r.take (r.length - 3) ++ ['-', '-', '-'] else r
+
+def alnTrimStopCodons (getItem : List Char → Char) (rows : List (List Char)) (strict : Bool) :
+    Except Err (List (List Char)) :=
+  match collHasTerminalStop getItem rows strict with
+  | .error e => .error e
+  | .ok false => .ok rows
+  | .ok true => .ok (rows.map (alnTrimRow getItem))
+
+/-- old `_SequenceCollectionBase.get_translation` (SequenceCollection): pre-pass `trim_stop_codons(gc, strict)` when
+`trim_stop and not include_stop`, then `seq.get_translation(gc, incomplete_ok=True, include_stop, trim_stop)` per row -/
+def oldCollGetTranslation (seq : List Char) (rows : List (List Char)) (io is_ ts : Bool) :
+    Except Err (List (List Char)) :=
+  match (if ts && !is_ then collTrimStopCodons (oldGetItem seq) rows (!io) else .ok rows) with
+  | .error e => .error e
+  | .ok rows1 => rows1.mapM fun r => oldSeqGetTranslation seq r true is_ ts
+
+/-- new `SequenceCollection.get_translation`: `seq.get_translation(gc, incomplete_ok, include_stop, trim_stop)` per row -/
+def newCollGetTranslation (mt : MT) (seq : List Char) (rows : List (List Char)) (io is_ ts : Bool) :
+    Except Err (List (List Char)) :=
+  rows.mapM fun r => newSeqGetTranslation mt seq r io is_ ts
+
 end CogentModel.GC
